@@ -508,6 +508,190 @@ def impl_real_aux_bytes(arg):
     from pybtex import auxfile
     return _with_bytes_path(arg[0], arg[1], lambda p: auxfile.parse_file(p, 'utf-8'))
 
+# ---- targeted problems: a piece of user-controlled text is planted where a message embeds it
+def _tmpfile(d, name, text):
+    p = os.path.join(d, name)
+    with open(p, 'w', encoding='utf-8', newline='') as f:
+        f.write(text)
+    return p
+
+def _safe_name(tok):
+    return ''.join('_' if c in '/\x00\n\r' else c for c in tok) or 'x'
+
+def _t_aux_case(tok, d):
+    from pybtex import auxfile
+    p = _tmpfile(d, 'x.aux', '\\citation{Foo%s}\n\\citation{foo%s}\n\\citation{ok}\n\\bibstyle{s}\n\\bibdata{d}\n' % (tok, tok))
+    return lambda: auxfile.parse_file(p, 'utf-8')
+def _t_aux_style(tok, d):
+    from pybtex import auxfile
+    p = _tmpfile(d, 'x.aux', '\\bibstyle{s}\n\\bibstyle{%s}\n\\bibdata{%s}\n\\bibdata{e%s}\n' % (tok, tok, tok))
+    return lambda: auxfile.parse_file(p, 'utf-8')
+def _t_aux_filename(tok, d):
+    from pybtex import auxfile
+    p = _tmpfile(d, _safe_name(tok) + '.aux', '\\citation{Foo}\n\\citation{foo}\n\\bibstyle{s}\n\\bibstyle{t}\n')
+    return lambda: auxfile.parse_file(p, 'utf-8')
+def _bib(text):
+    import pybtex.database as D
+    return lambda: D.parse_string(text, 'bibtex')
+def _t_bib_key(tok, d):
+    return _bib('@a(k%s, t = {1})\n@b(k%s, t = {2})\n@c(z, u = {3})\n' % (tok, tok))
+def _t_bib_field(tok, d):
+    return _bib('@a(k%s, f%s = {1}, F%s = {2})\n@c(z, u = {3})\n' % (tok, tok, tok))
+def _t_bib_macro(tok, d):
+    return _bib('@a{k, t = m%s}\n@c{z, u = {3}}\n' % tok)
+def _t_bib_value_context(tok, d):
+    return _bib('@a{k, t = {v%s}, u = }\n@c{z, u = {3}}\n' % tok.replace('{', '').replace('}', ''))
+def _t_bib_name(tok, d):
+    return _bib('@a{k, author = {N%s, b, c, d}}\n@c{z, u = {3}}\n' % tok.replace('{', '').replace('}', ''))
+def _t_bib_xref(tok, d):
+    def f():
+        import pybtex.database as D
+        data = D.parse_string('@a(k%s, crossref = {x%s})' % (tok, tok.replace('{', '').replace('}', '')), 'bibtex')
+        return data.add_extra_citations(list(data.entries.keys()), 2)
+    return f
+def _t_bib_filename(tok, d):
+    from pybtex.database.input.bibtex import Parser
+    p = _tmpfile(d, _safe_name(tok) + '.bib', '@a{k, t = }\n@b{k2, t = u}\n')
+    return lambda: Parser().parse_file(p)
+def _t_open_missing(tok, d):
+    import pybtex.database as D
+    return lambda: D.parse_file(os.path.join(d, 'no' + _safe_name(tok) + '.bib'))
+def _bst(text):
+    def f():
+        from pybtex.bibtex.interpreter import Interpreter
+        from pybtex.bibtex import bst as BSTM
+        from pybtex.database.input.bibtex import Parser
+        return Interpreter(Parser, 'utf-8').run(BSTM.parse_string(text), [], [], min_crossrefs=2)
+    return f
+def _q(tok):
+    return tok.replace('"', '')
+def _t_bst_warning(tok, d):
+    return _bst('FUNCTION {f} { "w%s" warning$ "second %s" warning$ }\nEXECUTE {f}\n' % (_q(tok), _q(tok)))
+def _t_bst_case_mode(tok, d):
+    return _bst('FUNCTION {f} { "x" "q%s" change.case$ }\nEXECUTE {f}\n' % _q(tok))
+def _t_bst_format_name(tok, d):
+    return _bst('FUNCTION {f} { "A%s B" #5 "{ff}" format.name$ }\nEXECUTE {f}\n' % _q(tok))
+def _t_bst_undefined(tok, d):
+    w = ''.join(c for c in tok if c not in '{}"#% \n\r\t') or 'u'
+    return _bst('FUNCTION {f} { g%s }\nEXECUTE {f}\n' % w)
+def _t_bst_context(tok, d):
+    from pybtex.bibtex import bst as BSTM
+    text = 'FUNCTION {f} { "s%s" } ?%s\n' % (_q(tok), tok.replace('%', ''))
+    return lambda: list(BSTM.parse_string(text))
+def _t_name(tok, d):
+    from pybtex.database import Person
+    return lambda: Person('N%s, b, c, d' % tok)
+def _t_name_format(tok, d):
+    from pybtex.bibtex.names import format_name
+    return lambda: format_name('Donald E. Knuth', '{ff}%s{' % tok.replace('{', '').replace('}', ''))
+def _t_plugin(tok, d):
+    from pybtex.plugin import find_plugin
+    return lambda: find_plugin('pybtex.backends', 'p' + tok)
+def _t_plugin_group(tok, d):
+    from pybtex.plugin import find_plugin
+    return lambda: find_plugin('g' + tok, 'x')
+def _t_plugin_suffix(tok, d):
+    from pybtex.plugin import find_plugin
+    return lambda: find_plugin('pybtex.database.input', filename='x.s' + _safe_name(tok))
+def _t_template_field(tok, d):
+    def f():
+        from pybtex.style.template import field
+        from pybtex.database import Entry
+        e = Entry('misc'); e.key = 'k' + tok
+        return field('f' + tok).format_data({'entry': e})
+    return f
+def _t_style_missing(tok, d):
+    def f():
+        import pybtex.database as D
+        from pybtex.plugin import find_plugin
+        style = find_plugin('pybtex.style.formatting', 'plain')()
+        data = D.parse_string('@misc{a, title={T}}', 'bibtex')
+        return list(style.format_bibliography(data, ['a', 'c' + tok, 'd' + tok]))
+    return f
+
+_WS = ' \t\n\r\x0b\x0c\x1c\x1d\x1e\x1f\x85\xa0\u2028\u2029'
+_LBS = '\n\r\x0b\x0c\x1c\x1d\x1e\x85\u2028\u2029'
+_NAMEONLY = None      # keep only characters of a BibTeX name
+def _plantable(k, tok):
+    """the part of the token that the input syntax lets one plant at this place"""
+    forb = TARGET_FORBID.get(k, '')
+    if forb is _NAMEONLY:
+        return ''.join(c for c in tok if c.isascii() and (c.isalnum() or c in '@!$&*+-./:;<>?[\\]^_`|~'))
+    return ''.join(c for c in tok if c not in forb)
+# (name, builder, what must appear verbatim given the token)
+TARGETS = [
+    ('.aux: case mismatch between cite keys', _t_aux_case, lambda t: ['Foo' + t, 'foo' + t]),
+    ('.aux: repeated \\bibstyle / \\bibdata (context line)', _t_aux_style, lambda t: ['\\bibstyle{%s}' % t, '\\bibdata{e%s}' % t]),
+    ('.aux: file name', _t_aux_filename, lambda t: [_safe_name(t) + '.aux: ']),
+    ('.bib: repeated entry key', _t_bib_key, lambda t: ['k' + t]),
+    ('.bib: duplicate field', _t_bib_field, lambda t: ['k' + t, 'F' + t]),
+    ('.bib: undefined macro', _t_bib_macro, lambda t: None),
+    ('.bib: value in the context of a syntax error', _t_bib_value_context, lambda t: ['{v%s}' % t.replace('{', '').replace('}', '')]),
+    ('.bib: too many commas in a name', _t_bib_name, lambda t: [('N' + t.replace('{', '').replace('}', ''), 'repr')]),
+    ('.bib: bad cross-reference', _t_bib_xref, lambda t: ['k' + t]),
+    ('.bib: file name', _t_bib_filename, lambda t: [_safe_name(t) + '.bib: ']),
+    ('file that cannot be opened', _t_open_missing, lambda t: ['no' + _safe_name(t) + '.bib']),
+    ('.bst: warning$ text', _t_bst_warning, lambda t: ['w' + _q(t), 'second ' + _q(t)]),
+    ('.bst: change.case$ mode', _t_bst_case_mode, lambda t: ['q' + _q(t)]),
+    ('.bst: format.name$ names', _t_bst_format_name, lambda t: ['A%s B' % _q(t)]),
+    ('.bst: undefined function', _t_bst_undefined, lambda t: None),
+    ('.bst: tokens in the context of a syntax error', _t_bst_context, lambda t: None),
+    ('name string', _t_name, lambda t: [('N' + t, 'repr')]),
+    ('name format string', _t_name_format, lambda t: None),
+    ('plugin name', _t_plugin, lambda t: ['p' + t]),
+    ('plugin group', _t_plugin_group, lambda t: ['g' + t]),
+    ('plugin suffix', _t_plugin_suffix, lambda t: None),
+    ('template: missing field', _t_template_field, lambda t: ['f' + t, 'k' + t]),
+    ('style: missing database entry', _t_style_missing, lambda t: ['c' + t, 'd' + t]),
+]
+
+TARGET_FORBID = {0: ',' + _LBS, 1: _LBS, 2: _LBS, 3: _WS + ',', 4: _NAMEONLY, 5: _NAMEONLY, 6: _LBS, 7: _LBS + ',', 8: _WS + ',',
+                 9: _LBS, 10: _LBS, 11: _LBS, 12: _LBS, 13: _LBS, 14: _WS, 15: _LBS, 17: _LBS}
+
+def impl_targeted(arg):
+    k, tok = arg[0], _plantable(arg[0], S(arg[1]))
+    d = tempfile.mkdtemp(prefix='c16t')
+    try:
+        try:
+            thunk = TARGETS[k][1](tok, d)
+        except (OSError, ValueError, UnicodeError):
+            return [9]        # the token cannot be planted (e.g. the file system refuses the name)
+        out = _three_renderings(thunk)
+        if out == [9] and tok != 'plain':
+            # a foreign exception: is it the planted text that does it (the same input with a harmless
+            # text goes through)?  then building the message choked on the user's text
+            try:
+                ref = _three_renderings(TARGETS[k][1]('plain', d))
+            except Exception:
+                ref = [9]
+            if ref != [9]:
+                return [8]
+        return out
+    finally:
+        shutil.rmtree(d, ignore_errors=True)
+
+def oracle_targeted(arg, out):
+    if out == [8]:
+        return ('with the user-controlled text %r the run dies with a foreign exception where the same input with '
+                'a harmless text reports its problem normally' % _plantable(arg[0], S(arg[1])))
+    m = oracle_real(out)
+    if m or out == [9]:
+        return m
+    k, tok = arg[0], _plantable(arg[0], S(arg[1]))
+    want = TARGETS[k][2](tok)
+    strict, (printed, code, nfatal), (captured, cfatal, capleft) = out
+    texts = [S(r[1]) for r in captured + cfatal + strict if r[0] == 0]
+    if not texts or want is None:
+        return None
+    whole = '\n'.join(texts)
+    for w in want:
+        forms = [w] if isinstance(w, str) else [w[0], repr(w[0])[1:-1]]
+        if set(forms[0]) & LB:
+            continue          # a line break in the planted text splits the input line: nothing to demand
+        if not any(f in whole for f in forms):
+            return 'the user-controlled text %r does not appear verbatim in the rendered problems %r' % (forms[0], texts)
+    return None
+
 def oracle_real(out):
     if out == [9]:
         return None
@@ -549,6 +733,7 @@ FUNCS = {
     10: ('parse_string(.bib) in strict / non-strict / capture mode: renderings of every problem', impl_real_bib, 'S'),
     11: ('.bst parsed and run in strict / non-strict / capture mode: renderings of every problem', impl_real_bst, 'S'),
     12: ('.aux parsed in strict / non-strict / capture mode: renderings of every problem', impl_real_aux, 'S'),
+    17: ('a problem whose message embeds a given piece of user-controlled text, in the three modes', impl_targeted, ('T', 'N', 'S')),
     14: ('Parser().parse_file(bytes path of a .bib) in the three modes', impl_real_bib_bytes, ('T', 'X', 'S')),
     15: ('bst.parse_file(bytes path) in the three modes', impl_real_bst_bytes, ('T', 'X', 'S')),
     16: ('auxfile.parse_file(bytes path) in the three modes', impl_real_aux_bytes, ('T', 'X', 'S')),
@@ -561,7 +746,7 @@ def canon(fn, out):
     """compare only what the property talks about: whether an error renders, which problems went
     where and in which order, the mode cells, the exit status -- never the wording of a message
     (the oracle checks, within the implementation, that renderings contain the message)"""
-    if fn in (10, 11, 12, 14, 15, 16):
+    if fn in (10, 11, 12, 14, 15, 16, 17):
         return []        # not modelled: the parsers belong to C10/C15/C20; oracle only
     try:
         if fn in (1, 2, 3):
@@ -787,6 +972,8 @@ def oracle_cmdline(arg, out):
     return None
 
 def oracle(fn, arg, out):
+    if fn == 17:
+        return oracle_targeted(arg, out)
     if fn in (10, 11, 12, 14, 15, 16):
         return oracle_real(out)
     if fn == 1:
@@ -844,6 +1031,13 @@ def oracle(fn, arg, out):
         text = S(out[2][1])
         if S(out[0][1]) not in text:
             return 'the rendering lacks str(error)'
+        given = {0: [1], 1: [2], 3: [1], 4: [1], 5: [1]}.get(arg[0], [])
+        for k in given:
+            if S(arg[k]) not in S(out[0][1]):
+                return 'the text %r given to the constructor does not appear verbatim in str(error) = %r' % (S(arg[k]), S(out[0][1]))
+        fnw = arg[2] if arg[0] == 0 else (arg[2][0] if arg[0] == 5 else arg[{1: 3, 2: 1, 3: 2, 4: 2}[arg[0]]][1])
+        if fnw[:1] == [0] and fnw[1] and S(fnw[1]) + ': ' not in text:
+            return 'the file name %r does not appear verbatim in the rendering %r' % (S(fnw[1]), text)
         if out[1][1] and out[1][1][0] and not subseq_in_order(S(out[1][1][0]).splitlines(), text, ''):
             return 'the rendering lacks the source context'
         return None
@@ -860,11 +1054,15 @@ def oracle(fn, arg, out):
 
 # ------------------------------------------------------------------------------------------
 # generators
-MSGS = ['m', 'bad thing', 'a\nb', '', 'x: y', 'é∑', 'tab\there', 'cr\rlf']
+# text that is a directive for str.format / % / a backslash escape somewhere: every message in pybtex embeds
+# user input, so all of it must be inert
+HOSTILE = ['{', '}', '{0}', '{x}', 'a{}b', 'Baz{0}', '%s', '%d', '%(a)s', '\\', '{0', '}{', '{!r}', '{0.__class__}', '%', '{{}}', 'é{0}%s\\']
+MSGS = ['m', 'bad thing', 'a\nb', '', 'x: y', 'é∑', 'tab\there', 'cr\rlf'] + HOSTILE
 FNAMES = [[], [0, ''], [0, 'f.bib'], [0, 'dir/a b.bst'], [0, 'é.aux'],
-          [2, list(b'plain.bib')], [2, list(b'caf\xe9.bib')], [2, list('d/é.aux'.encode('utf-8'))], [2, []], [2, [0xe2, 0x82]]]
+          [2, list(b'plain.bib')], [2, list(b'caf\xe9.bib')], [2, list('d/é.aux'.encode('utf-8'))], [2, []], [2, [0xe2, 0x82]],
+          [0, 'a{0}%s{x}.bib'], [0, '{'], [2, list(b'%(a)s{0}\xe9}.aux')]]
 LINENOS = [[], [0], [1], [2], [7], [12345], [-3]]
-ETYPES = ['syntax error', 'undefined string', 'weird type']
+ETYPES = ['syntax error', 'undefined string', 'weird type', 't{0}%s{x}']
 
 def rnd_text(rng, n, alpha):
     return ''.join(rng.choice(alpha) for _ in range(n))
@@ -905,6 +1103,78 @@ def simple_err(eid, variant=0):
         return [eid, 'p%d' % eid, [0, 'f.aux'], [2, [3]], [3, ['\\bibstyle{x}']]]
     return [eid, "'x' expected", [0, 'f.bst'], [1, 'syntax error', [2]], [1, 'a\nb c', [2], 3]]
 
+def gen_real(quick, rng):
+    """real user input first, so that a defect shows up with a real input among the first reported"""
+    # ---- real user input, corrupted, with several commands after the bad one
+    NR = 400 if quick else 6000
+    bib_toks = ['@', '{', '}', '"', ',', '=', '#', '(', ')', '\n', ' ', 'key1', '\r\n', '\x0c', 'undefinedmacro']
+    tail = '@misc{t1, note = {fine}}\n\n@misc{t2,\n  note = "also fine"\n}\n@comment{x}\n@misc{t3, note = 3}\n'
+    for t in ['@article{k, a = }\n' + tail, '@article{k, a = "x" # }\n' + tail, '@a{k,\n\n a = {x}\n b = {y}}\n' + tail,
+              '@article{k, a = b}\n@article{k, a = {x}, A = {y}}\n' + tail, '@a{k, a = {x}\n\n' + tail, BIB + '@article\n' + tail,
+              '@a{k, author = {A, B, C, D}}\n@a{k, x = }' + tail]:
+        yield ('real_bib', 10, t)
+    for i in range(NR):
+        t = BIB
+        for _ in range(rng.randint(1, 3)):
+            t = corrupt(rng, t, bib_toks)
+        yield ('real_bib', 10, t + rng.choice([tail, tail, '', '\n@misc{z, k = 1}\n']))
+    bst_tail = 'FUNCTION {g} { "w1" warning$ "w2" warning$ }\nEXECUTE {g}\nEXECUTE {g}\n'
+    for t in ['FUNCTION {f} { "w" warning$ #1 "a" * }\nEXECUTE {f}\n' + bst_tail, bst_tail + 'FUNCTION {f\n\n', bst_tail + 'foo {x}\n' + bst_tail,
+              bst_tail + 'FUNCTION {h} { #-1 int.to.chr$ }\nEXECUTE {h}\n']:
+        yield ('real_bst', 11, t)
+    for i in range(NR // 2):
+        t = BST + bst_tail
+        for _ in range(rng.randint(1, 2)):
+            t = corrupt(rng, t, ['{', '}', '"', '#', "'", ' ', '\n', 'f', 'pop$', 'EXECUTE', '%', ':=', 'warning$'])
+        yield ('real_bst', 11, t)
+    aux_tail = '\\citation{d}\n\\citation{D}\n\\bibstyle{again}\n\\relax\n\\bibdata{again}\n\\citation{e}\n'
+    for t in [AUX + aux_tail, aux_tail, '\\citation{a,A,a}\n' + AUX + aux_tail, '\\bibstyle{s}\n' + aux_tail]:
+        yield ('real_aux', 12, t)
+    for i in range(NR // 2):
+        t = AUX + aux_tail
+        for _ in range(rng.randint(1, 2)):
+            t = corrupt(rng, t, ['\\', '{', '}', '\n', 'citation', 'bibstyle', 'bibdata', 'A', ',', '\r\n'])
+        yield ('real_aux', 12, t)
+    # ---- every user-controlled part of every kind of problem, with text that is a format directive somewhere
+    TOKS = HOSTILE + ['', 'plain', 'é€', 'a b', 'x\ny', "it's", '{0}{1}{2}', '%%', '${a}', '\\n{0}']
+    for k in range(len(TARGETS)):
+        for tok in TOKS:
+            yield ('targeted_hostile', 17, [k, tok])
+    for i in range(NR // 2):
+        tok = ''.join(rng.choice(HOSTILE + ['a', 'B', '0', ' ', 'é', '.', '-']) for _ in range(rng.randint(1, 4)))
+        yield ('targeted_hostile', 17, [rng.randrange(len(TARGETS)), tok])
+    # ---- hostile text inside the corrupted real inputs as well
+    for i in range(NR // 2):
+        t = BIB + tail
+        for _ in range(rng.randint(1, 3)):
+            t = corrupt(rng, t, HOSTILE + ['@', ',', '=', '#', '"'])
+        yield ('real_bib', 10, t)
+        t = AUX + aux_tail
+        for _ in range(rng.randint(1, 3)):
+            t = corrupt(rng, t, HOSTILE + ['\\citation{Q', 'A', ','])
+        yield ('real_aux', 12, t)
+    # ---- the same through files given as BYTES paths, incl. names that are not valid UTF-8
+    BN = [b'caf\xe9.bib', b'plain.bib', 'é€.bib'.encode('utf-8'), b'\xff\xfe', b'a\xe2\x82.x', b'\xf0\x9f\x98.aux']
+    k = 0
+    for t in ['@article{k, a = }\n' + tail, '@a{k, a = {x}, A = {y}}\n@a{k, b = c}\n' + tail, '@a{k,\n\n a = {x}\n b = {y}}\n' + tail]:
+        for nm in BN:
+            yield ('real_bytes_path', 14, [list(nm), t])
+    for t in [bst_tail + 'foo {x}\n', 'FUNCTION {f\n\n', 'FUNCTION {f} { "x }\n']:
+        for nm in BN:
+            yield ('real_bytes_path', 15, [list(nm), t])
+    for t in [AUX + aux_tail, aux_tail, '\\citation{a}\n']:
+        for nm in BN:
+            yield ('real_bytes_path', 16, [list(nm), t])
+    for i in range(NR // 8):
+        nm = bytes(rng.choice([0x41, 0x2E, 0x80, 0xC3, 0xA9, 0xE9, 0xFF, 0xE2, 0x82, 0xAC, 0xF0]) for _ in range(rng.randint(1, 8)))
+        t = BIB
+        for _ in range(rng.randint(1, 2)):
+            t = corrupt(rng, t, bib_toks)
+        yield ('real_bytes_path', 14, [list(nm), t + tail])
+        t = AUX + aux_tail
+        t = corrupt(rng, t, ['\\', '{', '}', '\n', 'citation', 'bibstyle', 'bibdata', 'A', ','])
+        yield ('real_bytes_path', 16, [list(nm), t])
+
 def gen(tier, rng):
     quick = tier == 'quick'
     # ---- pinned: F6 (AuxDataError rendering), F22 (line kept), F27 (int as file name), F20 histories
@@ -915,6 +1185,8 @@ def gen(tier, rng):
     yield ('pinned', 5, [0, [[simple_err(1, 1), simple_err(2, 2), simple_err(3)], [1, simple_err(9)]]])
     # F27 inside a history: in non-strict mode the renderer's exception escapes from report_error
     yield ('pinned', 4, [0, 0, [[1], [5, simple_err(1)], [2], [5, [2, '%i passed to int.to.chr$', [1], [0], [0]]], [5, simple_err(3)]]])
+    for c in gen_real(quick, rng):
+        yield c
     # ---- exhaustive: splitlines
     alpha = ['a', '\n', '\r', '\x0b', ' ']
     for n in range(0, (5 if quick else 7) + 1):
@@ -959,7 +1231,7 @@ def gen(tier, rng):
                     yield ('exh_render', 2, rec)
                     if fn != [1]:
                         yield ('exh_render', 1, [rec, 'ERROR: '])
-                for line in ([], [''], ['\\bibdata{x}'], ['a\x0cb'], [' ']):
+                for line in ([], [''], ['\\bibdata{x}'], ['a\x0cb'], [' '], ['\\citation{B{0}%s}']):
                     eid += 1
                     rec = [eid, msg, fn, [2, ln], [3, line]]
                     yield ('exh_render', 2, rec)
@@ -1032,15 +1304,16 @@ def gen(tier, rng):
         text = rnd_text(rng, rng.randint(0, 3), ' \n\r\t\x0c\x85 　') + rnd_text(rng, rng.randint(0, 12), 'xy \n\r\x0b{}')
         yield ('rnd_scanner', 7, [text, rng.choice(['x', 'xy', '{', '']), rng.choice(FNAMES)])
     # ---- constructors of the classes: exhaustive small scanner states + random
-    fns = [[], [0, 'f.bib'], [0, ''], [2, list(b'caf\xe9.bst')], [2, list('é'.encode('utf-8'))]]
+    fns = [[], [0, 'f.bib'], [0, ''], [2, list(b'caf\xe9.bst')], [2, list('é'.encode('utf-8'))], [0, 'a{0}%s}.bst'], [0, '{x}']]
+    descs = ["'x'", 'a name'] + HOSTILE
     for n in range(0, (3 if quick else 4) + 1):
         for t in itertools.product('a\n\r\x0c', repeat=n):
             text = ''.join(t)
             for pos in range(0, n + 1):
                 for ln in (1, 2, 3):
                     sc = [text, fns[(n + pos + ln) % len(fns)], ln, pos]
-                    yield ('exh_construct', 13, [3, "'x'", sc])
-                    yield ('exh_construct', 13, [4, 'a name', sc, [[], [0], [1]][(pos + ln) % 3]])
+                    yield ('exh_construct', 13, [3, descs[(n * 7 + pos * 3 + ln) % len(descs)], sc])
+                    yield ('exh_construct', 13, [4, descs[(n * 5 + pos + ln * 3) % len(descs)], sc, [[], [0], [1]][(pos + ln) % 3]])
                     if pos == 0:
                         yield ('exh_construct', 13, [2, sc])
                         yield ('exh_construct', 13, [1, ETYPES[ln - 1], MSGS[n % len(MSGS)], sc])
@@ -1059,7 +1332,7 @@ def gen(tier, rng):
             yield ('exh_construct', 13, [0, msg, fn_])
         for f_ in fns:
             for ln in LINENOS:
-                for line in ([], [''], ['\\bibdata{x}']):
+                for line in ([], [''], ['\\bibdata{x}'], ['\\citation{Baz{0}%s}']):
                     yield ('exh_construct', 13, [5, msg, [f_, ln, line]])
     for i in range(N // 2):
         text = rnd_text(rng, rng.randint(1, 25), 'ab  \n\n\r@{},=\x0c\x85')
@@ -1068,57 +1341,6 @@ def gen(tier, rng):
         sc = [text, rng.choice(fns), ln, pos]
         yield ('rnd_construct', 13, [3, rng.choice(MSGS), sc])
         yield ('rnd_construct', 13, [4, rng.choice(MSGS), sc, rng.choice([[], [0], [max(0, pos - 1)], [pos], [rng.randint(0, len(text))]])])
-    # ---- real user input, corrupted, with several commands after the bad one
-    NR = 400 if quick else 6000
-    bib_toks = ['@', '{', '}', '"', ',', '=', '#', '(', ')', '\n', ' ', 'key1', '\r\n', '\x0c', 'undefinedmacro']
-    tail = '@misc{t1, note = {fine}}\n\n@misc{t2,\n  note = "also fine"\n}\n@comment{x}\n@misc{t3, note = 3}\n'
-    for t in ['@article{k, a = }\n' + tail, '@article{k, a = "x" # }\n' + tail, '@a{k,\n\n a = {x}\n b = {y}}\n' + tail,
-              '@article{k, a = b}\n@article{k, a = {x}, A = {y}}\n' + tail, '@a{k, a = {x}\n\n' + tail, BIB + '@article\n' + tail,
-              '@a{k, author = {A, B, C, D}}\n@a{k, x = }' + tail]:
-        yield ('real_bib', 10, t)
-    for i in range(NR):
-        t = BIB
-        for _ in range(rng.randint(1, 3)):
-            t = corrupt(rng, t, bib_toks)
-        yield ('real_bib', 10, t + rng.choice([tail, tail, '', '\n@misc{z, k = 1}\n']))
-    bst_tail = 'FUNCTION {g} { "w1" warning$ "w2" warning$ }\nEXECUTE {g}\nEXECUTE {g}\n'
-    for t in ['FUNCTION {f} { "w" warning$ #1 "a" * }\nEXECUTE {f}\n' + bst_tail, bst_tail + 'FUNCTION {f\n\n', bst_tail + 'foo {x}\n' + bst_tail,
-              bst_tail + 'FUNCTION {h} { #-1 int.to.chr$ }\nEXECUTE {h}\n']:
-        yield ('real_bst', 11, t)
-    for i in range(NR // 2):
-        t = BST + bst_tail
-        for _ in range(rng.randint(1, 2)):
-            t = corrupt(rng, t, ['{', '}', '"', '#', "'", ' ', '\n', 'f', 'pop$', 'EXECUTE', '%', ':=', 'warning$'])
-        yield ('real_bst', 11, t)
-    aux_tail = '\\citation{d}\n\\citation{D}\n\\bibstyle{again}\n\\relax\n\\bibdata{again}\n\\citation{e}\n'
-    for t in [AUX + aux_tail, aux_tail, '\\citation{a,A,a}\n' + AUX + aux_tail, '\\bibstyle{s}\n' + aux_tail]:
-        yield ('real_aux', 12, t)
-    for i in range(NR // 2):
-        t = AUX + aux_tail
-        for _ in range(rng.randint(1, 2)):
-            t = corrupt(rng, t, ['\\', '{', '}', '\n', 'citation', 'bibstyle', 'bibdata', 'A', ',', '\r\n'])
-        yield ('real_aux', 12, t)
-    # ---- the same through files given as BYTES paths, incl. names that are not valid UTF-8
-    BN = [b'caf\xe9.bib', b'plain.bib', 'é€.bib'.encode('utf-8'), b'\xff\xfe', b'a\xe2\x82.x', b'\xf0\x9f\x98.aux']
-    k = 0
-    for t in ['@article{k, a = }\n' + tail, '@a{k, a = {x}, A = {y}}\n@a{k, b = c}\n' + tail, '@a{k,\n\n a = {x}\n b = {y}}\n' + tail]:
-        for nm in BN:
-            yield ('real_bytes_path', 14, [list(nm), t])
-    for t in [bst_tail + 'foo {x}\n', 'FUNCTION {f\n\n', 'FUNCTION {f} { "x }\n']:
-        for nm in BN:
-            yield ('real_bytes_path', 15, [list(nm), t])
-    for t in [AUX + aux_tail, aux_tail, '\\citation{a}\n']:
-        for nm in BN:
-            yield ('real_bytes_path', 16, [list(nm), t])
-    for i in range(NR // 8):
-        nm = bytes(rng.choice([0x41, 0x2E, 0x80, 0xC3, 0xA9, 0xE9, 0xFF, 0xE2, 0x82, 0xAC, 0xF0]) for _ in range(rng.randint(1, 8)))
-        t = BIB
-        for _ in range(rng.randint(1, 2)):
-            t = corrupt(rng, t, bib_toks)
-        yield ('real_bytes_path', 14, [list(nm), t + tail])
-        t = AUX + aux_tail
-        t = corrupt(rng, t, ['\\', '{', '}', '\n', 'citation', 'bibstyle', 'bibdata', 'A', ','])
-        yield ('real_bytes_path', 16, [list(nm), t])
     # ---- malformed: inconsistent scanner states, negative positions
     for i in range(N // 3):
         text = rnd_text(rng, rng.randint(0, 12), 'ab \n\r\x0c')
@@ -1145,7 +1367,7 @@ def nontrivial(fn, arg, out):
         return out[0] == 1
     if fn == 8:
         return len(out) >= 2
-    if fn in (10, 11, 12, 14, 15, 16):
+    if fn in (10, 11, 12, 14, 15, 16, 17):
         return True
     return True
 
@@ -1172,6 +1394,8 @@ def describe(fn, arg):
     if fn == 13:
         return {'constructor': ['PybtexError(message, filename)', 'PybtexSyntaxError(message, parser)', 'PrematureEOF(parser)', 'TokenRequired(description, Scanner)', 'TokenRequired(description, LowLevelParser)', 'AuxDataError(message, context)'][arg[0]],
                 'args': [S(x) if isinstance(x, list) and x and all(isinstance(c, int) for c in x) else x for x in arg[1:]]}
+    if fn == 17:
+        return {'problem': TARGETS[arg[0]][0] if arg[0] < len(TARGETS) else arg[0], 'planted text': S(arg[1])}
     if fn in (14, 15, 16):
         return {'kind': {14: '.bib', 15: '.bst', 16: '.aux'}[fn], 'bytes file name': repr(bytes(arg[0])), 'text': S(arg[1])}
     if fn in (10, 11, 12):
